@@ -4,7 +4,6 @@
    cells of all following leaves (empty leaves contribute nothing and do not end the scan). *)
 From Coq Require Import Lia ZifyBool ZifyN ZifyNat.
 From NDB Require Import Base.Bytes Base.Bytes_proofs BTree.BTree BTree.Spec BTree.Leaf_proofs.
-Set Default Timeout 30.
 
 (* chain h r rest: following the right-sibling pointer r visits leaves holding `rest`, then 0 *)
 Inductive chain (h : heap) : N -> list (list cell) -> Prop :=
